@@ -490,10 +490,16 @@ def rstep (m : Model) (e : Enc) (s : RState) (line : Bytes) : Except (RState × 
 def RState.file (s : RState) : File Vals :=
   { header := s.header, cashLetters := s.cashLetters, control := s.control }
 
-/-- minimum record length: 80, except records 27 and 34 (46 bytes plus their image reference key) -/
-def minLen (l : Bytes) : Nat :=
+/-- minimum record length: 80, except records 27 and 34 - 46 bytes plus the image reference key whose
+length they announce in columns 19-22 (a negative announcement fits no layout) -/
+def minLen (m : Model) (e : Enc) (l : Bytes) : Nat :=
   match kindOfLine l with
-  | some .cdAddB | some .rdAddC => 46
+  | some .cdAddB | some .rdAddC =>
+    if l.length < 22 then 46
+    else
+      let head := (if e.ebcdic then m.cm.decode else id) (l.take 22)
+      let n := parseNum ((head.drop 18).take 4)
+      if n < 0 then l.length + 1 else 46 + n.toNat
   | _ => 80
 
 /-- the loop of `Reader.Read` over already split lines; returns the (partial) file and the error -/
@@ -501,7 +507,7 @@ def readLines (m : Model) (e : Enc) : List Bytes → RState → RState × Option
   | [], s => (s, none)
   | l :: r, s =>
     let s := { s with lineNum := s.lineNum + 1 }
-    if l.length < minLen l then (s, some (s.err .file "RecordLength"))
+    if l.length < minLen m e l then (s, some (s.err .file "RecordLength"))
     else match rstep m e s l with
       | .ok s' => readLines m e r s'
       -- `Reader.error` stamps `r.lineNum`, which `parseLine` never changes
